@@ -1,4 +1,4 @@
-CONSTANTS Tokens = {"a", "@", ":", "/", "0", "8", "~", "unix", "tcp"} MaxLen = 4 Mode = "flat"
+CONSTANTS Tokens = {"a", "@", ":", "/", "0", "8", "~", "unix"} MaxLen = 4 Mode = "flat"
 SPECIFICATION Spec
 INVARIANTS InvC38
 CHECK_DEADLOCK FALSE
